@@ -105,7 +105,7 @@ def rand_stream(kind, n):
         yield {"gen": kind, "k": k}
 
 
-HUGE_QUICK = 16     # one per shard on a 16-worker run, three per shard with 5 workers; ~1 s each
+HUGE_QUICK = 10     # two per worker with 5 workers, ~2 s each
 ENTRY_FORMS = ("ctor-seek", "ctor-seek-index", "sweep-forward", "sweep-backward", "copy", "options", "null",
                "root-threshold-2", "aslist", "trees-options", "repeat")
 
@@ -158,8 +158,16 @@ def parsimony_optimum(fr, roots, obs, states, fixed=None, order=None):
     under unit costs).  Returns the minimum number of state changes, counting a change between the
     single shared ancestral state and a root."""
     cost = {}
+    children = fr.children
+    leaf_rows = {}
     for u in (order if order is not None else tree_nodes(fr, roots)):
         o = obs.get(u)
+        if u not in children:  # a leaf: nothing below to pay for (rows are shared, never modified)
+            row = leaf_rows.get(o)
+            if row is None:
+                row = leaf_rows[o] = [0 if (o is None or s == o) else INF for s in states]
+            cost[u] = row
+            continue
         kc = []
         for c in fr.kids(u):
             cv = cost[c]
@@ -365,6 +373,17 @@ def genotype_arg(geno, how):
     raise ValueError(how)
 
 
+def wit_geno(geno):
+    """Literal genotype vector for a witness; long ones as counts + head (the replay case rebuilds them)."""
+    if len(geno) <= 400:
+        return [int(g) for g in geno]
+    cnt = {}
+    for g in geno:
+        cnt[int(g)] = cnt.get(int(g), 0) + 1
+    return {"length": len(geno), "count-per-value": {str(k): v for k, v in sorted(cnt.items())},
+            "first-50": [int(g) for g in geno[:50]]}
+
+
 def plain(x):
     """JSON-able literal of an argument for the witness."""
     if isinstance(x, str):
@@ -380,7 +399,7 @@ def check_call(ctx, T, geno, alleles, anc_arg, how="list", kw=False, raw=None, w
     """Call the real map_mutations and evaluate oracles (1)-(4).  `raw` is a ready-made genotypes object
     (e.g. the live Variant.genotypes buffer) that holds the values of `geno`."""
     garg = raw if raw is not None else genotype_arg(geno, how)
-    witness = {"tree": T.describe(), "genotypes": [int(g) for g in geno], "alleles": list(alleles),
+    witness = {"tree": T.describe(), "genotypes": wit_geno(geno), "alleles": list(alleles),
                "ancestral_state": plain(anc_arg),
                "argument-form": f"genotypes:{how if raw is None else 'as-given'} alleles:{type(alleles).__name__} "
                                 f"ancestral_state:{type(anc_arg).__name__} {'keyword' if kw else 'positional'}"}
@@ -417,7 +436,7 @@ def check_ll(ctx, T, geno, anc_idx, how="int32", kw=False):
     """The low-level method directly: (genotypes, ancestral_state index or None) ->
     (ancestral index, [(node, parent, state)]).  Evaluated by the same oracles on index level."""
     garg = genotype_arg(geno, how)
-    witness = {"tree": T.describe(), "genotypes": [int(g) for g in geno], "ancestral_state": plain(anc_idx),
+    witness = {"tree": T.describe(), "genotypes": wit_geno(geno), "ancestral_state": plain(anc_idx),
                "entry": f"_tskit.Tree.map_mutations genotypes:{how} {'keyword' if kw else 'positional'}"}
     ctx.count("oracle:ll-direct")
     try:
@@ -547,14 +566,16 @@ def evaluate(ctx, T, geno, alleles, anc_arg, anc, mlist, witness):
 
 def check_via_tables(ctx, T, geno, alleles, anc, mlist):
     """(3) end to end, as in the docstring example: the list goes into a mutation table unchanged."""
+    if T.x is None:
+        return
     tc = to_tables(T.m)
     tc.sites.clear()
     tc.mutations.clear()
     tc.sites.add_row(T.x, anc)
     for u, d, p in mlist:
         tc.mutations.add_row(site=0, node=u, derived_state=d, parent=p)
-    witness = {"tree": T.describe(), "genotypes": list(geno), "alleles": list(alleles),
-               "got": {"ancestral_state": anc, "mutations": mlist}}
+    witness = {"tree": T.describe(), "genotypes": wit_geno(geno), "alleles": list(alleles),
+               "got": {"ancestral_state": anc, "mutations": mlist[:200]}}
     ctx.count("oracle:loads-as-mutation-table")
     try:
         ts2 = tc.tree_sequence()
@@ -589,7 +610,7 @@ def check_docstring_route(ctx, T, geno, alleles, anc, muts, rng):
             break
     if pos is None:
         return
-    witness = {"tree": T.describe(), "genotypes": [int(g) for g in geno], "alleles": list(alleles), "new-site-position": pos,
+    witness = {"tree": T.describe(), "genotypes": wit_geno(geno), "alleles": list(alleles), "new-site-position": pos,
                "got": {"ancestral_state": anc, "mutations": [(int(mu.node), mu.derived_state, int(mu.parent))
                                                              for mu in muts][:200]}}
     ctx.count("oracle:docstring-route")
@@ -625,15 +646,30 @@ def check_docstring_route(ctx, T, geno, alleles, anc, muts, rng):
            f"the new site is not in the tree sequence; {witness}", witness)
 
 
-def expect_raise(ctx, T, geno, alleles, anc_arg, key, why):
+def expect_raise(ctx, T, geno, alleles, anc_arg, key, why, kw=False):
     ctx.count("oracle:must-raise")
     ctx.feature("error:" + why)
-    witness = {"tree": T.describe(), "genotypes": [int(g) for g in geno], "alleles": list(alleles),
-               "ancestral_state": anc_arg, "why": why}
+    witness = {"tree": T.describe(), "genotypes": wit_geno(geno), "alleles": list(alleles),
+               "ancestral_state": plain(anc_arg), "why": why, "call": "keyword" if kw else "positional"}
     try:
-        res = T.tree.map_mutations(geno, alleles, anc_arg)
+        if kw:
+            res = T.tree.map_mutations(ancestral_state=anc_arg, alleles=alleles, genotypes=geno)
+        else:
+            res = T.tree.map_mutations(geno, alleles, anc_arg)
     except Exception:
         return  # EITHER: the class of the exception is not fixed by the docs
+    report(ctx, key, f"{why}: accepted and returned {res!r}; {witness}", witness)
+
+
+def expect_raise_ll(ctx, T, f, args, key, why):
+    ctx.count("oracle:must-raise")
+    ctx.feature("error:" + why)
+    try:
+        res = f()
+    except Exception:
+        return  # EITHER: the class of the exception is not fixed
+    witness = {"tree": T.describe(), "why": why, "entry": "_tskit.Tree.map_mutations"}
+    witness.update({k: plain(v) if not isinstance(v, list) else [int(x) for x in v] for k, v in args.items()})
     report(ctx, key, f"{why}: accepted and returned {res!r}; {witness}", witness)
 
 
@@ -647,6 +683,8 @@ def make_alleles(rng, k):
     base = list(_STRS)
     rng.shuffle(base)
     out = base[:k]
+    if k >= 2 and "" not in out and rng.random() < 0.25:
+        out[rng.randrange(k)] = ""  # the empty allele (a deletion) at any index, index 0 included
     i = 0
     while len(out) < k:
         out.append(f"x{i}")
@@ -658,7 +696,7 @@ def run_exhaustive_tree(ctx, T, rng, values=SMALL_VALUES):
     """ALL genotype vectors over {missing,0,1,2} x {free, every fixed state incl. an unobserved one}."""
     alleles = ("A", "C", "G", "T")
     ns = len(T.samples)
-    hows = ("list", "int8", "int32", "tuple")
+    hows = GENO_FORMS
     k = 0
     for geno in itertools.product(values, repeat=ns):
         if all(g == MISSING for g in geno):
@@ -669,9 +707,15 @@ def run_exhaustive_tree(ctx, T, rng, values=SMALL_VALUES):
             a = anc
             if anc is not None and k % 2:
                 a = alleles[anc]
-            res = check_call(ctx, T, geno, alleles, a, hows[k % 4])
+            elif anc is not None and k % 6 == 2:
+                a = np.int64(anc)
+            res = check_call(ctx, T, geno, alleles, a, hows[k % len(hows)], kw=k % 7 == 0, want_objects=True)
             if res is not None and k % 97 == 0:
-                check_via_tables(ctx, T, geno, alleles, *res)
+                check_via_tables(ctx, T, geno, alleles, res[0], res[1])
+            if res is not None and k % 193 == 0:
+                check_docstring_route(ctx, T, geno, alleles, res[0], res[2], rng)
+            if k % 11 == 0:
+                check_ll(ctx, T, geno, anc, ("int32", "list", "int8")[k % 3], kw=k % 5 == 0)
     ctx.count("exhaustive-trees")
 
 
@@ -687,36 +731,112 @@ def evolve(rng, T, nalleles_idx, p):
     return [st.get(u, nalleles_idx[0]) for u in T.samples]
 
 
-def random_calls(ctx, T, rng, ncalls, big=False):
+def anc_form(rng, a, alleles):
+    """One of the documented spellings of a fixed ancestral state (index or string) incl. numpy scalars."""
+    if alleles[a] == "" and rng.random() < 0.6:
+        return ""  # a falsy but legal string
+    r = rng.random()
+    if r < 0.36:
+        return a
+    if r < 0.72:
+        return alleles[a]
+    if r < 0.86:
+        return rng.choice([np.int64, np.int32, np.int8, np.uint8, np.intp])(a)
+    return np.str_(alleles[a])
+
+
+def skewed_genotypes(rng, T, idx):
+    """Count boundaries: under one node (or the virtual root) with k children exactly c of them
+    (c in 255, 256, 257, 65535, 65536, 65537 ...: one past a narrow counter) carry one allele and the few
+    others carry 1-3 other alleles.  Returns None when the tree has no node with enough sample leaves."""
+    fr = T.fr
+    best = None
+    groups = [sorted(c for c in ch if T.m.is_sample(c) and not fr.kids(c)) for _, ch in sorted(fr.children.items())]
+    groups.append([r for r in T.roots if T.m.is_sample(r) and not fr.kids(r)])
+    for g in groups:
+        if best is None or len(g) > len(best):
+            best = g
+    if best is None or len(best) < 256:
+        return None
+    k = len(best)
+    cands = [c for c in (255, 256, 257, 511, 512, 513, 65535, 65536, 65537) if c < k]
+    if k > 65537:
+        cands = [65536, 65536, 65537, 65537, 65535]  # the wrapping counts twice as often as the control
+    c = rng.choice(cands[-3:]) if rng.random() < 0.6 else rng.choice(cands)  # the largest that fit, mostly
+    major = idx[0]
+    minors = idx[1:4] or [idx[0]]
+    members = list(best)
+    rng.shuffle(members)
+    st = {}
+    for u in members[:c]:
+        st[u] = major
+    rest = members[c:]
+    if len(rest) > 200:  # keep the others below c mod 256 / 65536
+        for u in rest[200:]:
+            st[u] = MISSING
+        rest = rest[:200]
+    for j, u in enumerate(rest):
+        # one competitor gets at least three carriers: it beats a count that wrapped round to 0 or 1
+        st[u] = minors[0] if j < 3 else rng.choice(minors)
+    other = rng.choice(minors)
+    return [st.get(u, other) for u in T.samples], c
+
+
+def random_calls(ctx, T, rng, ncalls, big=False, skew=False):
     ns = len(T.samples)
     if ns == 0:
         expect_raise(ctx, T, [], ("A",), None, "map_mutations/no-observation-accepted", "zero-samples")
         return
-    for _ in range(ncalls):
-        K = rng.choice([1, 2, 2, 3, 4, 4, 8, 64, 64] if not big else [64, 64, 64, 32, 70])
+    for call in range(ncalls):
+        K = rng.choice([1, 2, 2, 3, 4, 4, 8, 33, 64, 64] if not big else [64, 64, 64, 32, 33, 70])
         alleles = make_alleles(rng, K)
         kmax = min(K, 64)
         A = rng.choice([1, 2, 2, 2, 3, 3, 3, 4, 6, kmax]) if not big else rng.choice([kmax, kmax, 16])
         A = max(1, min(A, kmax))
         idx = rng.sample(range(kmax), A)
+        # word / limit boundaries of the allele index: 63 (last legal), 31 and 32 (32-bit edge)
         if kmax == 64 and rng.random() < 0.6 and 63 not in idx:
             idx[rng.randrange(A)] = 63
-        if rng.random() < 0.35:
+        if kmax >= 33 and rng.random() < 0.5:
+            for v in (31, 32):
+                if v not in idx:
+                    free = [i for i in range(A) if idx[i] not in (63, 31, 32)]
+                    if free:
+                        idx[rng.choice(free)] = v
+        mode = None
+        sk = skewed_genotypes(rng, T, idx) if skew and call == 0 else None
+        if sk is not None:
+            geno, c = sk
+            mode = "skewed"
+            ctx.feature(f"child-count-boundary:{c}")
+        elif rng.random() < 0.35:
             geno = evolve(rng, T, idx, rng.choice([0.2, 0.4, 0.6]))
         elif big and ns >= len(idx):
             geno = [idx[j % len(idx)] for j in range(ns)]
             rng.shuffle(geno)
         else:
             geno = [rng.choice(idx) for _ in range(ns)]
-        pm = rng.choice([0, 0, 0, 0.1, 0.2, 0.3, 0.5, 0.9])
-        geno = [MISSING if rng.random() < pm else g for g in geno]  # independent of sample kind
+        if mode is None:
+            pm = rng.choice([0, 0, 0, 0.1, 0.2, 0.3, 0.5, 0.9, "one"])
+            if pm == "one":  # exactly one observation
+                keep = rng.randrange(ns)
+                geno = [g if j == keep else MISSING for j, g in enumerate(geno)]
+                ctx.feature("exactly-one-observation")
+            else:
+                geno = [MISSING if rng.random() < pm else g for g in geno]  # independent of sample kind
+        else:
+            pm = 0 if MISSING not in geno else 0.5
         if all(g == MISSING for g in geno):
             expect_raise(ctx, T, geno, alleles, None, "map_mutations/all-missing-accepted", "all-missing")
             continue
         ctx.feature(f"missing:{'none' if pm == 0 else 'some'}")
-        ctx.feature(f"alleles-in-use:{min(len(set(geno) - {MISSING}), 5)}{'+' if len(set(geno) - {MISSING}) > 5 else ''}")
-        if 63 in geno:
-            ctx.feature("allele-63-observed")
+        used = set(geno) - {MISSING}
+        ctx.feature(f"alleles-in-use:{min(len(used), 5)}{'+' if len(used) > 5 else ''}")
+        if len(used) == 64:
+            ctx.feature("alleles-in-use:all-64")
+        for v in (63, 31, 32):
+            if v in used:
+                ctx.feature(f"allele-{v}-observed")
         if any(g == MISSING and T.fr.kids(u) for g, u in zip(geno, T.samples)):
             ctx.feature("missing-internal-sample")
         # ancestral options: free + every fixed state (small K) or a sample of them
@@ -726,26 +846,60 @@ def random_calls(ctx, T, rng, ncalls, big=False):
             fixed = {0, kmax - 1, rng.randrange(kmax)}
             obs_idx = [g for g in geno if g != MISSING]
             fixed.add(rng.choice(obs_idx))
+            if kmax >= 33:
+                fixed.add(rng.choice([31, 32]))
             fixed = sorted(fixed)
-        how = rng.choice(["list", "int8", "int32", "tuple"])
-        al = alleles if rng.random() < 0.7 else list(alleles)
-        res = check_call(ctx, T, geno, al, None, how)
+        if len(T.order) > 5000:
+            fixed = rng.sample(fixed, 1)
+        how = rng.choice(GENO_FORMS)
+        ctx.feature("genotypes-as:" + how)
+        r = rng.random()
+        if r < 0.6:
+            al = alleles
+        elif r < 0.9:
+            al = list(alleles)
+        elif all(len(a) == 1 for a in alleles):
+            al = "".join(alleles)  # a str is a sequence of one-character alleles with .index()
+            ctx.feature("alleles-as:str")
+        else:
+            al = list(alleles)
+        kw = rng.choice([False, False, False, True, "omit"])
+        if kw:
+            ctx.feature("call:keyword")
+        res = check_call(ctx, T, geno, al, None, how, kw=kw, want_objects=True)
         if res is not None and rng.random() < 0.08:
-            check_via_tables(ctx, T, geno, alleles, *res)
+            check_via_tables(ctx, T, geno, alleles, res[0], res[1])
+        if res is not None and rng.random() < 0.08:
+            check_docstring_route(ctx, T, geno, alleles, res[0], res[2], rng)
         for a in fixed:
-            arg = a if rng.random() < 0.5 else alleles[a]
-            ctx.feature("ancestral:index" if isinstance(arg, int) else "ancestral:string")
-            if a == 63:
-                ctx.feature("ancestral-63")
-            res = check_call(ctx, T, geno, al, arg, how)
+            arg = anc_form(rng, a, alleles)
+            ctx.feature("ancestral:string" if isinstance(arg, str) else "ancestral:index")
+            if isinstance(arg, (np.integer, np.str_)):
+                ctx.feature("ancestral:numpy-scalar")
+            if isinstance(arg, str) and arg == "":
+                ctx.feature("ancestral:empty-string")
+            if a in (63, 31, 32):
+                ctx.feature(f"ancestral-{a}")
+            res = check_call(ctx, T, geno, al, arg, how, kw=bool(kw) and rng.random() < 0.5, want_objects=True)
             if res is not None and rng.random() < 0.04:
-                check_via_tables(ctx, T, geno, alleles, *res)
+                check_via_tables(ctx, T, geno, alleles, res[0], res[1])
+            if res is not None and rng.random() < 0.04:
+                check_docstring_route(ctx, T, geno, alleles, res[0], res[2], rng)
+        # the same question put to the low-level method (allele strings play no role there)
+        if rng.random() < 0.2:
+            ctx.feature("entry:low-level")
+            # (the low-level method takes only what casts safely to int32)
+            check_ll(ctx, T, geno, rng.choice([None] + fixed), rng.choice(["list", "int8", "int16", "int32", "strided32"]),
+                     kw=rng.random() < 0.3)
 
 
 def error_calls(ctx, T, rng):
     ns = len(T.samples)
     if ns == 0:
         expect_raise(ctx, T, [], ("A",), None, "map_mutations/no-observation-accepted", "zero-samples")
+        ll0 = T.tree._ll_tree.map_mutations
+        expect_raise_ll(ctx, T, lambda: ll0(np.array([], dtype=np.int32), rng.choice([None, 0])), {"genotypes": []},
+                        "map_mutations/low-level/no-observation-accepted", "low-level:zero-samples")
         return
     alleles = make_alleles(rng, rng.choice([2, 3, 64, 70]))
     K = min(len(alleles), 64)
@@ -755,14 +909,14 @@ def error_calls(ctx, T, rng):
     for d in (-1, 1, ns):
         g = (good + good + [0])[: ns + d]
         if len(g) != ns:
-            expect_raise(ctx, T, g, alleles, None, "map_mutations/wrong-length-accepted", "wrong-length")
+            expect_raise(ctx, T, g, alleles, None, "map_mutations/wrong-length-accepted", "wrong-length", kw=d == 1)
     j = rng.randrange(ns)
     for v in (64, 65, 127, rng.choice([128, 255, 256, 1000, 2 ** 31])):
         g = list(good)
         g[j] = v
         expect_raise(ctx, T, g, alleles, None, "map_mutations/genotype-above-63-accepted", "genotype>=64")
         expect_raise(ctx, T, np.array(g, dtype=np.int64), alleles, None,
-                     "map_mutations/genotype-above-63-accepted", "genotype>=64")
+                     "map_mutations/genotype-above-63-accepted", "genotype>=64", kw=v == 65)
     for v in (-2, -3, -128, rng.choice([-129, -1000])):
         g = list(good)
         g[j] = v
@@ -771,7 +925,14 @@ def error_calls(ctx, T, rng):
                  "ancestral-string-not-in-alleles")
     for v in (-1, -2, len(alleles), len(alleles) + 1, 64 if len(alleles) > 64 else len(alleles) + 5):
         expect_raise(ctx, T, good, alleles, v, "map_mutations/bad-ancestral-state-accepted",
-                     "ancestral-index-out-of-range")
+                     "ancestral-index-out-of-range", kw=v == -1)
+    if len(alleles) > 64:
+        # a string that sits at index >= 64 of a long allele list is as illegal as the index itself
+        for v in (64, len(alleles) - 1):
+            expect_raise(ctx, T, good, alleles, alleles[v], "map_mutations/bad-ancestral-state-accepted",
+                         "ancestral-string-at-index>=64")
+            expect_raise(ctx, T, good, list(alleles), np.int64(v), "map_mutations/bad-ancestral-state-accepted",
+                         "ancestral-index-out-of-range")
     # the boundary on the accepting side: 63 is a legal genotype and a legal ancestral state
     if K == 64:
         g = list(good)
@@ -779,6 +940,46 @@ def error_calls(ctx, T, rng):
         check_call(ctx, T, g, alleles, None)
         check_call(ctx, T, g, alleles, 63)
         check_call(ctx, T, good, alleles, alleles[63])
+        check_ll(ctx, T, g, 63)
+        check_ll(ctx, T, g, None, "list")
+    # the low-level method has its own range checks (the Python wrapper shadows them otherwise)
+    ll = T.tree._ll_tree.map_mutations
+    # (in a third of the cases: one undefined shift is enough to be seen, every case would be a crash storm)
+    for v in (64, 65, rng.choice([127, 128, 1 << 16, 2 ** 31 - 1])) if rng.random() < 0.34 else ():
+        g = list(good)
+        g[j] = v
+        expect_raise_ll(ctx, T, lambda g=g: ll(np.array(g, dtype=np.int32), None), {"genotypes": g},
+                        "map_mutations/low-level/genotype-above-63-accepted", "low-level:genotype>=64")
+    for v in (-2, rng.choice([-3, -128, -(2 ** 31)])):
+        g = list(good)
+        g[j] = v
+        expect_raise_ll(ctx, T, lambda g=g: ll(g), {"genotypes": g},
+                        "map_mutations/low-level/genotype-below-missing-accepted", "low-level:genotype<-1")
+    for v in (64, -1, rng.choice([65, 100, -2, -64])):
+        expect_raise_ll(ctx, T, lambda v=v: ll(good, v), {"genotypes": good, "ancestral_state": v},
+                        "map_mutations/low-level/bad-ancestral-state-accepted", "low-level:ancestral-out-of-range")
+        expect_raise_ll(ctx, T, lambda v=v: ll(genotypes=good, ancestral_state=v),
+                        {"genotypes": good, "ancestral_state": v},
+                        "map_mutations/low-level/bad-ancestral-state-accepted", "low-level:ancestral-out-of-range")
+    expect_raise_ll(ctx, T, lambda: ll(good, "A"), {"genotypes": good, "ancestral_state": "A"},
+                    "map_mutations/low-level/bad-ancestral-state-accepted", "low-level:ancestral-not-a-number")
+    for d in (-1, 1):
+        g = (good + [0])[: ns + d]
+        expect_raise_ll(ctx, T, lambda g=g: ll(g, None), {"genotypes": g},
+                        "map_mutations/low-level/wrong-length-accepted", "low-level:wrong-length")
+    expect_raise_ll(ctx, T, lambda: ll([MISSING] * ns, rng.choice([None, 0, 63])), {"genotypes": [MISSING] * ns},
+                    "map_mutations/low-level/all-missing-accepted", "low-level:all-missing")
+    # undocumented argument shapes: must return or raise, nothing is asserted about which (EITHER)
+    for f in (lambda: T.tree.map_mutations(np.array([good]), alleles),
+              lambda: T.tree.map_mutations(np.array(good, dtype=float), alleles),
+              lambda: T.tree.map_mutations(good, alleles, 1.0),
+              lambda: ll(np.array([good, good], dtype=np.int32)),
+              lambda: ll(good, 0.0)):
+        ctx.count("either:undocumented-argument-shape")
+        try:
+            f()
+        except Exception:
+            pass
 
 
 # --------------------------------------------------------------------------- case runners
@@ -826,6 +1027,252 @@ def tag_tree(ctx, T):
     for u in T.in_tree:
         if not T.m.is_sample(u) and not fr.kids(u):
             ctx.feature("dead-leaf")
+
+
+def fast_ts(m):
+    """to_ts for node/edge-only models with tens of thousands of rows (column-wise)."""
+    tc = tskit.TableCollection(m.L)
+    tc.nodes.set_columns(flags=np.array([r[0] for r in m.nodes], dtype=np.uint32),
+                         time=np.array([r[1] for r in m.nodes], dtype=np.float64))
+    tc.edges.set_columns(left=np.array([e[0] for e in m.edges], dtype=np.float64),
+                         right=np.array([e[1] for e in m.edges], dtype=np.float64),
+                         parent=np.array([e[2] for e in m.edges], dtype=np.int32),
+                         child=np.array([e[3] for e in m.edges], dtype=np.int32))
+    return tc.tree_sequence()
+
+
+def run_huge(case, ctx, rng):
+    """More than 2^16 children under one node / the virtual root, one allele on exactly 65535 / 65536 /
+    65537 of them: 16-bit per-child counters, 16-bit stack depths and the like."""
+    k = rng.choice([65540, 65541, 65600, 66000])
+    shape = ("star", "roots", "star-under-unary")[case["k"] % 3]
+    m = RowModel(1.0)
+    m.nodes = [(NODE_IS_SAMPLE, 0.0, NULL, NULL, b"")] * k
+    edges = []
+    if shape != "roots":
+        m.nodes.append((rng.choice([0, 0, NODE_IS_SAMPLE]), 1.0, NULL, NULL, b""))
+        edges = [(0.0, 1.0, k, c, b"") for c in range(k)]
+        if shape == "star-under-unary":
+            m.nodes.append((0, 2.0, NULL, NULL, b""))
+            edges.append((0.0, 1.0, k + 1, k, b""))
+    m.edges = edges
+    ts = fast_ts(m)
+    T = TreeCtx(ts, ts.first(), m, 0.0, note=f"huge {shape} with {k} sample leaves")
+    ctx.sig(("huge", k, shape), nontrivial=True)
+    ctx.feature("huge:" + shape)
+    ctx.count("family:huge-fanout")
+    random_calls(ctx, T, rng, 1, big=True, skew=True)
+
+
+def run_deep(case, ctx, rng):
+    """Depth 1000-3000: a caterpillar (every internal node has one leaf and the rest of the spine), long
+    unary runs inside it, internal samples on the spine."""
+    depth = rng.choice([1000, 1500, 2000, 3000])
+    p_leaf = rng.choice([0.0, 0.1, 0.5, 1.0])
+    p_sample = rng.choice([0.0, 0.02, 0.3])
+    m = RowModel(1.0)
+    nodes = [(NODE_IS_SAMPLE, 0.0, NULL, NULL, b"")]  # the bottom of the spine
+    edges = []
+    below = 0
+    for d in range(1, depth + 1):
+        nodes.append((NODE_IS_SAMPLE if rng.random() < p_sample else 0, float(d), NULL, NULL, b""))
+        u = len(nodes) - 1
+        edges.append((0.0, 1.0, u, below, b""))
+        if rng.random() < p_leaf:
+            nodes.append((NODE_IS_SAMPLE if rng.random() < 0.9 else 0, 0.0, NULL, NULL, b""))
+            edges.append((0.0, 1.0, u, len(nodes) - 1, b""))
+        below = u
+    m.nodes = nodes
+    m.edges = sorted(edges, key=lambda e: (nodes[e[2]][1], e[2], e[3]))
+    ts = fast_ts(m)
+    tree = ts.first() if rng.random() < 0.5 else ts.at(0.5)
+    T = TreeCtx(ts, tree, m, 0.0, note=f"spine of depth {depth}, leaf share {p_leaf}, spine-sample share {p_sample}")
+    ctx.sig(("deep", depth, p_leaf, p_sample, case["k"]), nontrivial=True)
+    ctx.feature(f"deep:{depth}")
+    if p_leaf == 0.0:
+        ctx.feature("deep:pure-unary-chain")
+    ctx.count("family:deep")
+    random_calls(ctx, T, rng, 2)
+
+
+PERMISSIVE_JSON = {"codec": "json"}
+
+
+def run_variants(case, ctx, rng):
+    """The documented pairing with TreeSequence.variants: the live Variant.genotypes buffer and
+    Variant.alleles (None for missing data at the end) go in unchanged; the result goes back into the
+    tables of the same tree sequence through the docstring recipe."""
+    m = None
+    for _ in range(4):
+        m = gen.gen_topology(rng, n=rng.randint(2, rng.choice([6, 10, 16])), max_bp=rng.choice([0, 1, 3]),
+                             sample_mode=rng.choice(["young"] * 3 + ["any"] * 3 + ["all"] * 2 + ["few"]))
+        gen.decorate_sites(rng, m, max_sites=5, max_muts=rng.choice([2, 4, 8]),
+                           alleles=rng.choice([None, None, ("A", "C", "G", "T"), ("", "A", "AC", "é", "T")]))
+        if m.sites and m.samples():
+            break
+    ctx.sig(("variants", m.signature()), nontrivial=bool(m.sites and m.samples()))
+    if not (m.sites and m.samples()):
+        return
+    tc = to_tables(m)
+    if rng.random() < 0.35:
+        tc.mutations.metadata_schema = tskit.MetadataSchema(PERMISSIVE_JSON)
+        ctx.feature("variants:mutation-metadata-schema")
+    ts = tc.tree_sequence()
+    ctx.count("family:variants")
+    iam = rng.random() < 0.6
+    done = 0
+    for var in ts.variants(isolated_as_missing=iam, copy=rng.random() < 0.5):
+        if done >= 3:
+            break
+        done += 1
+        x = float(var.site.position)
+        tree = ts.at(x) if rng.random() < 0.7 else ts.at_index(ts.at(x).index)
+        T = TreeCtx(ts, tree, m, x, note="at(site position); genotypes/alleles are those of the Variant")
+        tag_tree(ctx, T)
+        geno = [int(v) for v in var.genotypes]
+        alleles = var.alleles
+        if None in alleles:
+            ctx.feature("variants:alleles-end-with-None")
+        if all(v == MISSING for v in geno):
+            expect_raise(ctx, T, geno, alleles, None, "map_mutations/all-missing-accepted", "all-missing")
+            continue
+        # reference cross-check of the workload itself: what the variant says is what the model says
+        ctx.feature(f"variants:alleles:{min(len([a for a in alleles if a is not None]), 5)}")
+        for anc in (None, var.site.ancestral_state, 0, rng.randrange(len([a for a in alleles if a is not None]))):
+            res = check_call(ctx, T, geno, alleles, anc, how="variant-buffer", raw=var.genotypes,
+                             kw=rng.random() < 0.2, want_objects=True)
+            if res is not None and rng.random() < 0.5:
+                check_docstring_route(ctx, T, geno, alleles, res[0], res[2], rng)
+            if [int(v) for v in var.genotypes] != geno:
+                raise AssertionError("workload error: Variant.genotypes changed under the call")
+
+
+def null_ctx(ts, tree, m, note):
+    """The null tree: no edges, every sample an isolated root."""
+    from lib.model import Forest
+    return TreeCtx(ts, tree, m, None, fr=Forest(m, {}), note=note)
+
+
+def run_entry(case, ctx, rng):
+    """The same question through every way of getting hold of a Tree (ENTRY_FORMS, cycled so that each
+    form has a fixed share of the cases); reused objects are asked again after they moved."""
+    form = ENTRY_FORMS[case["k"] % len(ENTRY_FORMS)]
+    m = gen.gen_topology(rng, n=rng.randint(2, rng.choice([6, 9, 14])), max_bp=rng.choice([1, 3, 5]),
+                         sample_mode=rng.choice(["young"] * 3 + ["any"] * 3 + ["all"] * 2 + ["few"]))
+    ts = to_ts(m)
+    ctx.sig(("entry", form, m.signature()), nontrivial=len(m.samples()) > 0)
+    ctx.feature("entry:" + form)
+    ctx.count("family:entry")
+    samples = m.samples()
+    nt = ts.num_trees
+
+    def ask(tree, note, ncalls=2, **kw):
+        x = float(tree.interval.left)
+        T = TreeCtx(ts, tree, m, x, note=note, **kw)
+        tag_tree(ctx, T)
+        random_calls(ctx, T, rng, ncalls)
+
+    if form == "ctor-seek":
+        t = tskit.Tree(ts)
+        for _ in range(2):
+            x = rng.choice(m.breakpoints()[:-1] + [rng.random() * m.L])
+            t.seek(x)
+            ask(t, f"Tree(ts); seek({x})")
+    elif form == "ctor-seek-index":
+        t = tskit.Tree(ts)
+        for _ in range(2):
+            i = rng.choice([0, nt - 1, -1, rng.randrange(nt)])
+            t.seek_index(i)
+            ask(t, f"Tree(ts); seek_index({i})")
+    elif form == "sweep-forward":
+        t = tskit.Tree(ts)
+        t.first()
+        ask(t, "first()", 1)
+        steps = 0
+        while t.next() and steps < 5:
+            steps += 1
+            ask(t, f"first(); next() x {steps}", 1)
+        if t.index == -1:
+            random_calls(ctx, null_ctx(ts, t, m, "ran off the end with next()"), rng, 1)
+            ctx.feature("entry:null-after-sweep")
+            t.first()
+            ask(t, "first() again after running off the end", 1)
+    elif form == "sweep-backward":
+        t = tskit.Tree(ts)
+        t.last()
+        ask(t, "last()", 1)
+        steps = 0
+        while t.prev() and steps < 5:
+            steps += 1
+            ask(t, f"last(); prev() x {steps}", 1)
+        if t.index == -1:
+            random_calls(ctx, null_ctx(ts, t, m, "ran off the start with prev()"), rng, 1)
+            ctx.feature("entry:null-after-sweep")
+            t.last()
+            ask(t, "last() again after running off the start", 1)
+    elif form == "copy":
+        t = ts.at_index(rng.randrange(nt))
+        c = t.copy()
+        ask(c, "at_index(i).copy()")
+        if not t.next():
+            t.first()
+        ask(c, "copy, after the original moved on", 1)
+        ask(t, "the original after next()", 1)
+    elif form == "options":
+        tracked = [u for u in samples if rng.random() < 0.5]
+        t = tskit.Tree(ts, sample_lists=rng.random() < 0.7, tracked_samples=tracked)
+        t.seek_index(rng.randrange(nt))
+        ask(t, f"Tree(ts, sample_lists, tracked_samples={tracked}); seek_index")
+    elif form == "trees-options":
+        tracked = [u for u in samples if rng.random() < 0.5]
+        want = rng.randrange(nt)
+        for t in ts.trees(tracked_samples=tracked, sample_lists=True):
+            if t.index == want or t.index == nt - 1:
+                ask(t, f"trees(tracked_samples={tracked}, sample_lists=True) at index {t.index}", 1)
+    elif form == "aslist":
+        lst = ts.aslist(sample_lists=rng.random() < 0.3)
+        for i in sorted({0, nt - 1, rng.randrange(nt)}):
+            ask(lst[i], f"aslist()[{i}]", 1)
+    elif form == "null":
+        t = tskit.Tree(ts)
+        random_calls(ctx, null_ctx(ts, t, m, "Tree(ts), never positioned"), rng, 2)
+        t2 = ts.at_index(rng.randrange(nt))
+        t2.clear()
+        random_calls(ctx, null_ctx(ts, t2, m, "at_index(i); clear()"), rng, 1)
+    elif form == "root-threshold-2":
+        t = tskit.Tree(ts, root_threshold=2)
+        t.seek_index(rng.randrange(nt))
+        x = float(t.interval.left)
+        fr = forest(m, x)
+        roots = fr.roots(2)
+        T = TreeCtx(ts, t, m, x, fr=fr, roots=roots, note="Tree(ts, root_threshold=2); seek_index")
+        if any(u not in T.in_tree for u in samples):
+            ctx.feature("entry:root-threshold-2:samples-outside-the-roots")
+        root_threshold_calls(ctx, T, rng)
+    elif form == "repeat":
+        # two calls with different data on one object, then the first question again
+        t = ts.at(rng.choice(m.breakpoints()[:-1]))
+        ask(t, "at(x), asked repeatedly", 3)
+
+
+def root_threshold_calls(ctx, T, rng):
+    """root_threshold=2: observations of samples outside the roots cannot be reproduced by any placement
+    and do not count; at least one sample below the roots is observed."""
+    ns = len(T.samples)
+    inside = [j for j, u in enumerate(T.samples) if u in T.in_tree]
+    if ns == 0 or not inside:
+        return
+    for _ in range(2):
+        K = rng.choice([2, 3, 4, 64])
+        alleles = make_alleles(rng, K)
+        idx = rng.sample(range(K), min(K, rng.choice([1, 2, 3])))
+        geno = [rng.choice(idx) if rng.random() < 0.8 else MISSING for _ in range(ns)]
+        j = rng.choice(inside)
+        if geno[j] == MISSING:
+            geno[j] = idx[0]
+        for a in [None] + sorted({0, K - 1, rng.choice(idx)}):
+            check_call(ctx, T, geno, alleles, a if a is None or rng.random() < 0.5 else alleles[a],
+                       rng.choice(GENO_FORMS))
 
 
 def run_case(case, ctx):
@@ -916,8 +1363,16 @@ def run_case(case, ctx):
         ctx.sig(("fanout", k, shape), nontrivial=True)
         ctx.feature("fanout:" + shape)
         tag_tree(ctx, T)
-        random_calls(ctx, T, rng, 3, big=True)
+        random_calls(ctx, T, rng, 3, big=True, skew=True)
         return
+    if g == "huge":
+        return run_huge(case, ctx, rng)
+    if g == "deep":
+        return run_deep(case, ctx, rng)
+    if g == "variants":
+        return run_variants(case, ctx, rng)
+    if g == "entry":
+        return run_entry(case, ctx, rng)
     if g == "wide":
         n = rng.randint(30, 90)
         m = gen.gen_topology(rng, n=n, max_bp=rng.choice([0, 0, 1]),
